@@ -97,6 +97,9 @@ def auto_constant_rules(F):
                             out[s["key"]] = (True, "A6: divisor is the constant %s" % divisor)
                 elif msg == "overflow_add" and len(t.get("ops", [])) == 2 and _a9(F, b, t, U):
                     out[s["key"]] = (True, "A9: usize sum of two quantities that are each at most isize::MAX (byte offsets / lengths of one buffer, len() / count() results, small constants)")
+                elif msg == "overflow_sub" and len(t.get("ops", [])) == 2 and _a11(F, b, t):
+                    out[s["key"]] = (True, "A11: len(self.<text>) - len(rest) with rest = self.<iter>.as_str(), and every write of that iterator field is a "
+                                            "char_indices() / chars() over the same text: the rest is a suffix of the text, so the difference is not negative")
                 elif msg.startswith("overflow_") and len(t.get("ops", [])) == 2:
                     a, c = (_const_int(b, o) for o in t["ops"])
                     if a is not None and c is not None:
@@ -108,6 +111,79 @@ def auto_constant_rules(F):
                         except ValueError:
                             pass
     return out
+
+
+def _a11(F, body, t):
+    """len(self.A) - len(self.B.as_str()) where B is an iterator over the characters of A on every write of B"""
+    from ..core import place_fields
+    ops = t["ops"]
+
+    def len_of_field(o):
+        """(field name, adt, via as_str?) when o = len(x) with x read off a field of the receiver"""
+        for d, p in origins(body, o):
+            if d[0] != "call" or body.term(d[1])["callee"].get("name") != "len":
+                return None
+            a0 = body.term(d[1])["args"][0]
+            via = False
+            work, g = [a0], 0
+            while work and g < 8:
+                g += 1
+                x = work.pop()
+                for d2, p2 in origins(body, x):
+                    if d2[0] == "call" and body.term(d2[1])["callee"].get("name") in ("as_str", "deref", "as_ref", "borrow"):
+                        via = via or body.term(d2[1])["callee"].get("name") == "as_str"
+                        work.append(body.term(d2[1])["args"][0])
+                    elif d2[0] == "param" and d2[1] == 1 and p2:
+                        return (p2[0], via)
+        return None
+    a, c = len_of_field(ops[0]), len_of_field(ops[1])
+    if not a or not c or a[1] or not c[1]:
+        return False
+    text_f, iter_f = a[0], c[0]
+    self_adt = body.local_ty(1).peel_refs().adt()
+    if not self_adt:
+        return False
+    from . import common
+    n = 0
+    for fn, bi, kind, st in common.field_accesses(F, self_adt, iter_f):
+        if kind == "read":
+            continue
+        if kind == "mutref":
+            # handed out mutably: the iterator may only be advanced (an iterator over a text never grows)
+            continue
+        n += 1
+        rv = st.get("rv", {})
+        src = rv.get("use")
+        if src is None:
+            return False
+        good = False
+        for d, p in origins(fn, src):
+            if d[0] == "call" and fn.term(d[1])["callee"].get("name") in ("char_indices", "chars"):
+                recv = fn.term(d[1])["args"][0]
+                for d2, p2 in origins(fn, recv):
+                    if d2[0] == "param" and d2[1] == 1 and p2[:1] == (text_f,):
+                        good = True
+        if not good:
+            return False
+    # the constructor: the aggregate that builds the struct puts char_indices() of the value stored as the text field
+    adt = F.adts.get(self_adt)
+    if not adt:
+        return False
+    fields = [f["name"] for f in adt["variants"][0]["fields"]]
+    if text_f not in fields or iter_f not in fields:
+        return False
+    for fn, bi, st in common.aggregates_of(F, self_adt):
+        n += 1
+        o_text, o_iter = st["rv"]["ops"][fields.index(text_f)], st["rv"]["ops"][fields.index(iter_f)]
+        roots_text = {d for d, p in origins(fn, o_text)}
+        ok = False
+        for d, p in origins(fn, o_iter):
+            if d[0] == "call" and fn.term(d[1])["callee"].get("name") in ("char_indices", "chars"):
+                if {d2 for d2, p2 in origins(fn, fn.term(d[1])["args"][0])} == roots_text:
+                    ok = True
+        if not ok:
+            return False
+    return n > 0
 
 
 def _a9(F, body, t, U):
